@@ -9,9 +9,13 @@ import json, os, shutil, subprocess, sys
 def sh(cmd, **kw):
     return subprocess.run(cmd, shell=True, capture_output=True, text=True, **kw)
 
+ROOT = "/tmp/seed"
+TAG = ""
+
+
 def one(pid, k):
-    src = "/tmp/seed/out/%s/%s" % (pid, k)
-    wt = "/tmp/vw-import-%s-%s" % (pid, k)
+    src = "%s/out/%s/%s" % (ROOT, pid, k)
+    wt = "/tmp/vw-import-%s-%s%s" % (pid, TAG, k)
     sh("git -C /repo worktree remove --force %s" % wt)
     r = sh("git -C /repo worktree add -f %s HEAD" % wt)
     assert r.returncode == 0, r.stderr
@@ -29,11 +33,13 @@ def one(pid, k):
         if not ok:
             return "NOT CONFIRMED clean=%s baseline=%s broken=%s touched=%s" % (
                 clean.returncode, base.returncode, broken.returncode, touched)
-        dst = "/verif/seeded/%s-%s" % (pid, k)
+        dst = "/verif/seeded/%s-%s%s" % (pid, TAG, k)
         os.makedirs(dst, exist_ok=True)
         shutil.copy(src + "/patch.diff", dst); shutil.copy(src + "/demo.py", dst)
         meta = json.load(open(src + "/meta.json"))
         meta["property"] = pid
+        meta["seeded_against"] = sh("git -C /repo log --format=%h -1").stdout.strip()
+        meta["round"] = TAG or "r1"
         meta["confirmed_by_me"] = {
             "scratch_worktree": "git worktree of /repo HEAD under /tmp (removed afterwards)",
             "demo_on_clean_tree_exit": clean.returncode,
@@ -51,5 +57,11 @@ def one(pid, k):
         shutil.rmtree(wt, ignore_errors=True)
 
 args = sys.argv[1:]
+while args and args[0].startswith("--"):
+    if args[0] == "--root":
+        ROOT = args[1]
+    if args[0] == "--tag":
+        TAG = args[1]
+    args = args[2:]
 for pid, k in zip(args[0::2], args[1::2]):
     print(pid, k, one(pid, k), flush=True)
